@@ -41,7 +41,7 @@ func cases(tier string) int {
 	return 960
 }
 
-var blockers = []string{"none", "none", "node-dnd", "pod-dnd-true", "pod-dnd-duration-active", "pod-dnd-duration-expired", "pod-dnd-duration-boundary",
+var blockers = []string{"none", "none", "node-dnd", "pod-dnd-true", "pod-dnd-duration-active", "pod-dnd-duration-expired", "pod-dnd-duration-boundary", "pod-dnd-duration-not-started",
 	"daemon-pod-dnd", "pdb-zero", "pdb-multi", "pdb-allowing", "pdb-empty-selector", "pdb-negative-selector", "nominated", "renominated", "deleting", "recent-pod-event", "terminal-pod-dnd"}
 
 type world7 struct {
@@ -117,6 +117,15 @@ func (w *world7) apply(node *corev1.Node, nc *v1.NodeClaim, b string) {
 		p := w.helperPod(node.Name, gen.WithAnnotation(v1.DoNotDisruptAnnotationKey, "10m"))
 		st := metav1.NewTime(now.Add(-5 * time.Minute))
 		p.Status.StartTime = &st
+		e.Apply(p)
+	case "pod-dnd-duration-not-started":
+		// created long ago (it waited for capacity), bound a moment ago, not yet acknowledged by the kubelet: no startTime,
+		// so the window has not begun to run and the protection is active
+		p := w.helperPod(node.Name, gen.WithAnnotation(v1.DoNotDisruptAnnotationKey, "10m"))
+		p.CreationTimestamp = metav1.NewTime(now.Add(-20 * time.Minute))
+		p.Status.StartTime = nil
+		p.Status.Phase = corev1.PodPending
+		p.Status.Conditions = []corev1.PodCondition{{Type: corev1.PodScheduled, Status: corev1.ConditionTrue}}
 		e.Apply(p)
 	case "pod-dnd-duration-expired":
 		p := w.helperPod(node.Name, gen.WithAnnotation(v1.DoNotDisruptAnnotationKey, "10m"))
@@ -560,7 +569,7 @@ var _ = world.Epoch
 func init() {
 	reg.Register(&reg.Prop{
 		ID: "C07", Level: "exploration",
-		Rule:  "each case = cluster grown through the real pipeline and made attractive for one mode (all nodes empty / underutilised / drifted / drifted with terminationGracePeriod / mixed), pools with consolidateAfter 0s/5m/Never and policies WhenEmpty/WhenEmptyOrUnderutilized/Balanced, some nodes uninitialised; every node then gets at most one blocker or control (node do-not-disrupt, pod do-not-disrupt true / duration active / expired / about to expire, daemon pod do-not-disrupt, terminal pod do-not-disrupt, PDB with zero allowed, two PDBs, allowing PDB, exhausted PDB with an empty or negative-only selector over a pod without labels, nominated, nominated and renewed shortly before the first window ends, deleting, recent pod event) and further blockers are applied during the 15 s validation wait; 3-5 reconciles of the real disruption controller. Each candidate of each accepted command is judged against the statement's conjunction recomputed from the authoritative world (nominations from the harness' own record). Non-trivial = a command was produced while blocked nodes existed; distinct by (method, blocker spared or selected-node class).",
+		Rule:  "each case = cluster grown through the real pipeline and made attractive for one mode (all nodes empty / underutilised / drifted / drifted with terminationGracePeriod / mixed), pools with consolidateAfter 0s/5m/Never and policies WhenEmpty/WhenEmptyOrUnderutilized/Balanced, some nodes uninitialised; every node then gets at most one blocker or control (node do-not-disrupt, pod do-not-disrupt true / duration active / expired / about to expire / not yet started (no startTime, old creationTimestamp), daemon pod do-not-disrupt, terminal pod do-not-disrupt, PDB with zero allowed, two PDBs, allowing PDB, exhausted PDB with an empty or negative-only selector over a pod without labels, nominated, nominated and renewed shortly before the first window ends, deleting, recent pod event) and further blockers are applied during the 15 s validation wait; 3-5 reconciles of the real disruption controller. Each candidate of each accepted command is judged against the statement's conjunction recomputed from the authoritative world (nominations from the harness' own record). Non-trivial = a command was produced while blocked nodes existed; distinct by (method, blocker spared or selected-node class).",
 		Cases: cases, Run: run,
 		MinObserved: map[string]int{"candidates_judged": 100},
 	})
